@@ -8,7 +8,8 @@ from contracts.lib import lexer_flags, parser_constant
 SKIP_WORDS = ["GO", "USE", "INSERT", "GRANT", "DELETE"]
 # which texts reach the statement parser decides every property that speaks about "every statement of a script":
 # independence (C03), layout / case (C05), comments (C08), shape of what is reported (C12), errors (C16), entity kinds (C18), columns (C01)
-LINE_PROPS = ["C03", "C01", "C05", "C08", "C12", "C16", "C18"]
+from contracts.lib import PARSE_PROPS  # noqa: E402
+LINE_PROPS = PARSE_PROPS
 WORD_CHARS = "ABCDEFGHIJKLMNOPQRSTUVWXYZabcdefghijklmnopqrstuvwxyz0123456789_"
 
 
@@ -143,7 +144,7 @@ class GroupingStub:
 @contract
 class FormatInOrder:
     fn = "output.core.Output.format"
-    props = ["C03", "C04", "C13"]
+    props = PARSE_PROPS      # the formatting step every parsed result goes through
     cases = {"flat": dict(group=False), "grouped": dict(group=True)}
     loops = {"output.core.Output.format#0": dict(inv="inv_records", temps=["statement_data"], reads=["self.output_mode", "self.tables_dict"])}
     abstract_callees = True
@@ -252,3 +253,43 @@ class SetHandlerIdle:
 
     def spec(case, self_):
         return None
+
+
+SET_LINE = r"SET [!-`{-~]([ -`{-~]*[!-`{-~])?"      # a cleaned line that begins with SET and a blank (upper-case text: the case
+#                                                      mapping of the match is then the identity; other spellings: SkipWords-style case contracts)
+OTHER_LINE = r"[!-RT-rt-~]([ -~]*[!-~])?"               # a cleaned non-empty line that does not begin with S / s
+
+
+@contract
+class SetHandlerStates:
+    """the SET handler, line by line: a SET line becomes the pending SET (a SET already pending is recorded first); the first
+    line after a pending SET that is not itself a SET line makes the pending SET a record AS IT STANDS - that line is not
+    added to it - and the handler is idle again"""
+    fn = "parser.Parser.parse_set_statement"
+    props = LINE_PROPS
+    abstract_callees = True
+    stub_calls = {"parser.Parser.process_set": ("set-record", ["set_line"])}
+    cases = {"SET line, nothing pending": dict(line="set", pending=False), "SET line, SET pending": dict(line="set", pending=True),
+             "other line, three-word SET pending": dict(line="other", pending=True, words3=True), "other line, SET met on the previous line": dict(line="other", pending=True, words3=False)}
+
+    def build(G, case):
+        line = G.str("line", SET_LINE if case["line"] == "set" else OTHER_LINE, "SET a = 1;" if case["line"] == "set" else "SELECT 1;")
+        pending, was = None, G.bool("set_was_in_line")
+        if case["pending"]:
+            if case.get("words3"):
+                pending = "SET " + G.str("opt", r"[!-~]+", "ANSI_NULLS") + " " + G.str("val", r"[!-~]+", "ON")
+            else:
+                pending, was = "SET " + G.str("opt", r"[!-~]+", "x") + " = " + G.str("val", r"[!-~]+", "1"), True
+        p = G.parser(lexer=lexer_flags(G), line=line, set_line=pending, set_was_in_line=was, set_statement=parser_constant("set_statement"))
+        return dict(args=[p])
+
+    def spec(case, self_):
+        if case["line"] == "set":
+            if case["pending"]:
+                ghost_call("set-record", self_.set_line)
+            self_.set_line = self_.line
+            self_.set_was_in_line = True
+        else:
+            ghost_call("set-record", self_.set_line)
+            self_.set_line = None
+            self_.set_was_in_line = False
